@@ -352,6 +352,25 @@ type regionResult struct {
 	backs []*Edge
 }
 
+// mergeHeapTerm is ite(c, b, a) for two versions of a heap, written so that a difference confined
+// to one location stays confined to it: ite(c, store(a, i, v), a) = store(a, i, ite(c, v, a[i])).
+// Reads of other locations then do not pass through an if-then-else at all.
+func mergeHeapTerm(c, b, a *Term) *Term {
+	if a == b {
+		return a
+	}
+	if b.Op == "store" && b.Args[0] == a {
+		return Store(a, b.Args[1], mergeHeapTerm(c, b.Args[2], Select(a, b.Args[1])))
+	}
+	if a.Op == "store" && a.Args[0] == b {
+		return Store(b, a.Args[1], mergeHeapTerm(c, Select(b, a.Args[1]), a.Args[2]))
+	}
+	if a.Op == "store" && b.Op == "store" && a.Args[0] == b.Args[0] && a.Args[1] == b.Args[1] {
+		return Store(a.Args[0], a.Args[1], mergeHeapTerm(c, b.Args[2], a.Args[2]))
+	}
+	return Ite(c, b, a)
+}
+
 func (fx *FnCtx) mergeStates(edges []*Edge) *State {
 	if len(edges) == 1 {
 		return edges[0].st.Clone()
@@ -387,7 +406,14 @@ func (fx *FnCtx) mergeStates(edges []*Edge) *State {
 				}
 			}
 			if a != b {
-				out.Heaps[k] = Ite(c, b, a)
+				m := mergeHeapTerm(c, b, a)
+				if top := fx.root.top; top != nil && top.fc != nil && top.fc.NameMerges && k[0] == 'A' && m.Op == "store" && m.Args[2].Op == "ite" {
+					// name the merged contents of the one array that differs
+					sym := Fresh("merge_"+k, m.Args[2].Sort)
+					fx.assume(Eq(sym, m.Args[2]))
+					m = Store(m.Args[0], m.Args[1], sym)
+				}
+				out.Heaps[k] = m
 			} else {
 				out.Heaps[k] = a
 			}
